@@ -226,7 +226,7 @@ theorem C15_connect_iff (ep : Endpoint Root Chain) (dialOk : Bool)
           constructor
           · intro e; cases e; exact ⟨by simpa using hok, rfl⟩
           · intro ⟨_, e⟩; rw [e]
-        · simp only [hok, if_false]
+        · simp only [hok]
           constructor
           · intro e; cases e
           · intro ⟨h1, _⟩; exact absurd (by simpa using h1) hok
@@ -363,6 +363,38 @@ theorem C15_failure_runs_no_handler (ep : Endpoint Root Chain) (srv : ServerKind
       · split <;> rfl
       · split <;> rfl
       · rfl
+
+/-- A plaintext server never gets to serve an https endpoint — not even one without any TLS
+configuration, whatever the environment does. -/
+theorem C15_https_never_served_in_clear (ep : Endpoint Root Chain) (inner : InnerInfo)
+    (hs : Handshake Root Chain) (h : ep.uri.scheme = some .https) :
+    (scenario ep .plain inner hs).handlers = 0 ∧ (scenario ep .plain inner hs).ok = false := by
+  have hnp := C15_no_plaintext_fallback ep true (fun _ => ClientView.garbage) h
+  simp only [scenario, serverHelloOf]
+  split
+  · exact ⟨rfl, rfl⟩
+  · rename_i hplain; exact absurd hplain hnp
+  · cases ep.tls <;> exact ⟨rfl, rfl⟩
+
+/-- Generated clients go through `Endpoint::new`: for an https URI TLS is switched on without
+being asked, with the compiled-in root stores only, the URI host as the name to verify, no
+client identity and no ALPN opt-out. -/
+theorem C15_generated_client_default (sys : Sys Root) (uri : Uri) (ep : Endpoint Root Chain)
+    (h : Endpoint.new sys uri = .ok ep) (hh : uri.scheme = some .https) :
+    ∃ t, ep.tls = some t ∧ uri.host = some t.domain ∧
+      SameRoots t.hello.roots
+        ((if sys.featNative then sys.nativeCerts else []) ++ (if sys.featWebpki then sys.webpkiRoots else [])) ∧
+      t.assumeHttp2 = false ∧ t.hello.identity = none := by
+  simp only [Endpoint.new, hh, if_true] at h
+  obtain ⟨_, t, ht, hn, _, hr, _, ha, hi⟩ := C15_connector_uses_configuration sys uri _ ep h
+  refine ⟨t, ht, ?_, ?_, ?_, ?_⟩
+  · simpa [expectedName, configuredDomain, domainOfOp] using hn
+  · simpa [configuredRoots, rootsOfOp] using hr
+  · simpa [assumes, assumeOfOp] using ha
+  · have : loadOptIdentity (configuredIdentity ([.withEnabledRoots] : List (ClientOp Root Chain))) = .ok none := rfl
+    rw [this] at hi
+    injection hi with hi
+    exact hi.symm
 
 /-! ### non-vacuity -/
 
